@@ -64,8 +64,12 @@ Sizes(L, ix) == UNION { {L.args[p].nb[q] : q \in {q \in DOMAIN L.args[p].ind : L
 Eff(S) == IF Cardinality(S) > 1 THEN S \ {1} ELSE S
 NewSize(L, ix) == {L.nax[q].n : q \in {q \in DOMAIN L.nax : L.nax[q].ix = ix}}
 \* Dims: number of blocks along index ix
-DimOf(L, ix) == IF ix \in NewInds(L) THEN CHOOSE n \in NewSize(L, ix) : TRUE
-                ELSE CHOOSE n \in Eff(Sizes(L, ix)) : TRUE
+DimOfRaw(L, ix) == IF ix \in NewInds(L) THEN CHOOSE n \in NewSize(L, ix) : TRUE
+                   ELSE CHOOSE n \in Eff(Sizes(L, ix)) : TRUE
+Dims(L) == [ix \in AllInds(L) |-> DimOfRaw(L, ix)]
+\* (evaluation speed only: a layer may carry its Dims in an extra field `dm`, see Prep)
+WithDims(L)  == [dm |-> Dims(L)] @@ L
+DimOf(L, ix) == IF "dm" \in DOMAIN L THEN L.dm[ix] ELSE DimOfRaw(L, ix)
 
 LayerOK(L) ==
   /\ \A p \in BlockArgs(L) : /\ Len(L.args[p].ind) = Len(L.args[p].nb)
@@ -178,6 +182,9 @@ StackOK(st) ==
             /\ a.k = "coll" => /\ a.name \in LeafNames(st) \cup {st.layers[j].out : j \in 1..(i - 1)}
                                /\ a.nb = NBOf(st, a.name)
             /\ a.k = "key"  => a.name \in ConstNames(st)
+
+\* the same stack with Dims precomputed in every layer (well-formed stacks only)
+Prep(st) == [st EXCEPT !.layers = [i \in DOMAIN st.layers |-> WithDims(st.layers[i])]]
 
 BaseTab(st) ==
   [n \in LeafNames(st) \cup ConstNames(st) |->
